@@ -44,11 +44,19 @@ ZIP_OK = {
     ('from_parent_lambda', 'param_names', 'param_specs.iter().map(|s|s.type_.clone())'): 'built together by multiunzip from one parameter list',
 }
 
-TYPING_FIELDS = {
-    ('XFunc', 'XFunc'): {'generic_params', 'params', 'type_', 'ret'},
-    ('XCallable', 'XFunc'): {'generic_params', 'param_types', 'params', 'type_', 'return_type', 'ret'},
-    ('Compound', 'Compound'): {'name'},
+# which payload structs each arm of the hand-written equality compares; the fields to read are *all* fields of these structs
+# (taken from the ADT definitions in the MIR facts) minus the listed non-typing ones
+TYPING_STRUCTS = {
+    ('XFunc', 'XFunc'): ['xtype::XFuncSpec', 'xtype::XFuncParamSpec'],
+    ('XCallable', 'XFunc'): ['xtype::XCallableSpec', 'xtype::XFuncSpec', 'xtype::XFuncParamSpec'],
+    ('Compound', 'Compound'): [],
 }
+NON_TYPING = {
+    (('XFunc', 'XFunc'), 'short_circuit_overloads'): 'evaluation-strategy flag of the stub overloads registered for the unknown type; not part of a signature',
+    (('XCallable', 'XFunc'), 'short_circuit_overloads'): 'evaluation-strategy flag; not part of a signature',
+    (('XCallable', 'XFunc'), 'required'): 'a callable slot is always called with all of its arguments, so optional parameters of the function behave as required ones',
+}
+TYPING_FIELDS = {('Compound', 'Compound'): {'name'}}
 
 # pairs (self, other) each relation decides with a non-trivial arm; divergences between siblings need a reason
 PAIR_TABLE_REASONS = {
@@ -138,7 +146,28 @@ def run(ctx):
                     r0.fail('type_of/%s/arity' % kind, '%s:%d' % (CSF, n['line']), 'a call through a %s value is typed without comparing the number of arguments with the parameters (the evaluator indexes parameters by position unchecked)' % kind)
                 if not argcheck:
                     r0.fail('type_of/%s/args' % kind, '%s:%d' % (CSF, n['line']), 'a call through a %s value is typed without checking the argument types' % kind)
-    r0.need(2)
+    # (c) on the MIR: what becomes of each assignability test of an argument.  Its binding must either be accumulated
+    #     (Bind::mix: the callee is a function value with generic parameters of its own) or be required empty
+    #     (Bind::is_empty: the parameters a callable type mentions are the enclosing function's and are opaque here);
+    #     merely testing that it exists lets an argument bind a generic parameter of the enclosing function.
+    from .lib import mirq
+    from .lib.facts import strip_generics as _sg, callee_name as _cn
+    n_arg_tests = 0
+    for b in ctx.mir.bodies:
+        if b.nid != 'compilation_scope::CompilationScope::type_of' and not b.nid.startswith('compilation_scope::CompilationScope::type_of::{closure'):
+            continue
+        for bb, tm in b.calls():
+            if _sg(_cn(tm) or '') != 'xtype::XType::bind_in_assignment' or tm['dest']['p']:
+                continue
+            cons = mirq.consumers(ctx.mir, b, tm['dest']['l'])
+            ok = 'xtype::Bind::mix' in cons or 'xtype::Bind::is_empty' in cons
+            n_arg_tests += 1
+            r0.inst({'argument_test': mirq.site(b, bb), 'binding_goes_to': sorted(c.split('::')[-1] for c in cons)}, ok=ok, kind=('argtest', n_arg_tests))
+            if not ok:
+                r0.fail('type_of/argument-binding-dropped', mirq.site(b, bb), 'the binding produced by checking an argument against a parameter type is neither accumulated (Bind::mix) nor required to be empty (Bind::is_empty): an argument can bind a generic parameter of the enclosing function (f(1) accepted for f: (T)->(T))')
+    if n_arg_tests < 2:
+        r0.fail('anchor/argument-tests', CSF, 'fewer than the 2 argument assignability tests of type_of(Call) found in the MIR (%d)' % n_arg_tests)
+    r0.need(4)
 
     # ---------------- R04.1 declared types demand an empty binding
     r1 = ctx.rule('R04.1', 'declared-type checks reject a non-empty binding')
@@ -268,9 +297,21 @@ def run(ctx):
         for m, ps in find_nodes(eqs[0]['body'], lambda y: y.get('k') == 'match'):
             for a in m['arms']:
                 vp = variant_pair(a['pat'])
-                if vp in TYPING_FIELDS:
+                if vp in TYPING_STRUCTS:
                     fields = {x['member'] for x, _ in find_nodes(a['body'], lambda y: y.get('k') == 'field')}
-                    missing = TYPING_FIELDS[vp] - fields
+                    want = set(TYPING_FIELDS.get(vp, set()))
+                    for sid in TYPING_STRUCTS[vp]:
+                        adt = ctx.mir.adts.get(sid)
+                        if adt is None:
+                            r3.fail('anchor/%s' % sid, XT, 'payload struct %s not found in the MIR facts' % sid)
+                            continue
+                        for v in adt['variants']:
+                            for f in v['fields']:
+                                if (vp, f['name']) in NON_TYPING:
+                                    r3.exempted('%s/%s.%s' % ('-'.join(vp), sid.split('::')[-1], f['name']), NON_TYPING[(vp, f['name'])])
+                                else:
+                                    want.add(f['name'])
+                    missing = want - fields
                     if vp == ('Compound', 'Compound'):
                         # kind, spec identity and binding
                         bodys = flat_src(a['body'])
@@ -329,6 +370,52 @@ def run(ctx):
 
     # ---------------- R04.6 consistent binding of generic parameters: re-binding goes through common_type
     bind_merge(ctx, ctx.rule('R04.6', 'a generic parameter that is already bound is re-bound only to common_type(existing, new)'))
+
+    # ---------------- R04.7 traversals of a type reach every type-bearing variant
+    type_traversals(ctx, ctx.rule('R04.7', 'type traversals (resolve_bind, is_unknown) handle every XType variant that contains types'))
+
+
+# XType variants that contain types but need no arm in a traversal: (function, variant) -> reason
+TRAVERSAL_OK = {
+    ('resolve_bind', 'XFunc'): 'the type of a function value is closed: its generic parameters are its own (generic_params) and a lambda that mentions outer parameters only leaves its function through a declared XCallable type, which is resolved',
+    ('is_unknown', 'XGeneric'): 'a generic parameter is not the unknown type',
+}
+
+
+def type_traversals(ctx, r7):
+    """resolve_bind and is_unknown recurse over the structure of a type: every variant of XType whose payload mentions a
+    type (Arc<XType>, Vec<Arc<XType>>, Bind, a spec struct holding types) must have an explicit arm, or be listed."""
+    mir = ctx.mir
+    adt = mir.adts.get('xtype::XType')
+    if adt is None:
+        r7.fail('anchor/XType', XT, 'enum XType not found in the MIR facts')
+        return
+    bearing = []
+    for v in adt['variants']:
+        tys = ' '.join(f['ty'] for f in v['fields'])
+        if re.search(r'xtype::XType|xtype::Bind|xtype::XFuncSpec|xtype::XCallableSpec|Identifier|string_interner', tys) and v['name'] not in ('XUnknown',):
+            if re.search(r'xtype::XType|xtype::Bind|xtype::XFuncSpec|xtype::XCallableSpec', tys) or v['name'] == 'XGeneric':
+                bearing.append(v['name'])
+    fns = {fn['name']: fn for f, fn, im in astq.all_fns(ctx.ast) if f == XT and im is not None and 'XType' in im.get('self_ty', '')}
+    for fname in ('resolve_bind', 'is_unknown'):
+        fn = fns.get(fname)
+        if fn is None:
+            r7.fail('anchor/%s' % fname, XT, '%s not found' % fname)
+            continue
+        handled = set()
+        for m, ps in find_nodes(fn['body'], lambda y: y.get('k') == 'match'):
+            for a in m['arms']:
+                for name in re.findall(r'(?:Self|XType)\s*::\s*(\w+)', a['pat'].get('s') or ''):
+                    handled.add(name)
+        for v in bearing:
+            listed = TRAVERSAL_OK.get((fname, v))
+            ok = v in handled or listed is not None
+            r7.inst({'traversal': fname, 'variant': v, 'has_arm': v in handled, 'listed': listed is not None}, ok=ok, kind=(fname, v))
+            if listed is not None and v not in handled:
+                r7.exempted('%s / %s' % (fname, v), listed)
+            if not ok:
+                r7.fail('%s/%s/no-arm' % (fname, v), '%s:%d' % (XT, fn['line']), '%s has no arm for XType::%s, whose payload contains types: they fall through the default arm unchanged (unresolved generic parameters / unnoticed unknowns in inferred types)' % (fname, v))
+    r7.need(10)
 
 
 def bind_merge(ctx, r6):
